@@ -32,6 +32,9 @@ type c18Mix struct {
 	Chaos   []int `json:"chaos"` // backend actions fired concurrently with the traffic
 	Comp    bool  `json:"compression"`
 	Churn   int   `json:"churn,omitempty"` // > 0: the chaos goroutine first removes and re-adds nodes that many times under full traffic
+	// Mixed: the hosts are in two data centers and on different releases (rolling upgrade), so that a control-connection
+	// fail-over meets a node whose system.local differs from what the proxy learnt at start-up
+	Mixed bool `json:"mixed_dc_and_release,omitempty"`
 }
 
 func c18MixRun(c c18Mix) *evid.Fail {
@@ -43,6 +46,12 @@ func c18MixRun(c c18Mix) *evid.Fail {
 	defer e.Close()
 	proxy.VerifSetRefreshWindow(e.Proxy, 10*time.Millisecond)
 	e.Cluster.UnpreparedAuto = true
+	if c.Mixed {
+		for i := 1; i < e.Cluster.NumHosts(); i++ {
+			e.Cluster.Host(i).DC = []string{"dc1", "dc2"}[i%2]
+			e.Cluster.Host(i).RelVer = []string{"4.0.4", "4.0.11", "4.1.3"}[i%3]
+		}
+	}
 	var wg sync.WaitGroup
 	stop := make(chan struct{})
 	chaosDone := make(chan struct{})
@@ -106,7 +115,14 @@ func c18MixRun(c c18Mix) *evid.Fail {
 					_ = r.c.SendMsg(v, s, &message.Register{EventTypes: []primitive.EventType{primitive.EventTypeSchemaChange}}, false)
 					wait(s, from)
 				case 2:
-					_ = r.c.SendMsg(v, s, &message.Query{Query: "SELECT * FROM system.peers", Options: opts}, false)
+					switch k % 3 {
+					case 0:
+						_ = r.c.SendMsg(v, s, &message.Query{Query: "SELECT * FROM system.peers", Options: opts}, false)
+					case 1:
+						_ = r.c.SendMsg(v, s, &message.Query{Query: "SELECT * FROM system.local", Options: opts}, false)
+					default:
+						_ = r.c.SendMsg(v, s, &message.Options{}, false)
+					}
 					wait(s, from)
 				case 3, 4:
 					text := fmt.Sprintf("SELECT * FROM t WHERE k = ? AND tag = 'stmt%d'", (ci+k)%3)
@@ -248,7 +264,10 @@ func TestC18(t *testing.T) {
 		if c.Hosts > 1 && rapid.Bool().Draw(rt, "churns") {
 			c.Churn = rapid.IntRange(2, 12).Draw(rt, "churn")
 		}
-		rec.Case("mix:"+js(c), "family:mix", fmt.Sprintf("mix-conns:%d", c.Conns), map[bool]string{true: "mix-membership-churn", false: ""}[c.Churn > 0])
+		if c.Hosts > 1 && rapid.Bool().Draw(rt, "mixed") {
+			c.Mixed = true
+		}
+		rec.Case("mix:"+js(c), "family:mix", fmt.Sprintf("mix-conns:%d", c.Conns), map[bool]string{true: "mix-membership-churn", false: ""}[c.Churn > 0], map[bool]string{true: "mix-mixed-dc-and-release", false: ""}[c.Mixed])
 		rec.Sample(c)
 		return c
 	}, c18MixRun)
